@@ -140,6 +140,11 @@ func runHistory(rec *vr.Rec, c hcase) {
 		// its limiter slot, its observation) must be gone as soon as every call has returned and
 		// nothing is in flight any more; only caches with a lifetime of their own may wait for the housekeeping
 		pre := p.Cli.VerifSizes()
+		for try := 0; try < 4 && pre["token_handlers"]+pre["mid_handlers"]+pre["limiter_entries"]+pre["observations"] != 0; try++ {
+			p.Drain()
+			time.Sleep(5 * time.Millisecond)
+			pre = p.Cli.VerifSizes()
+		}
 		// (the per-message-ID lock table is not in this list: an entry exists while ANY received message is being
 		// processed, e.g. a late duplicate the default handler is looking at right now - transient, not per call)
 		for _, table := range []string{"token_handlers", "mid_handlers", "limiter_entries", "observations"} {
@@ -158,6 +163,13 @@ func runHistory(rec *vr.Rec, c hcase) {
 		rec.Count("quiescent_points_checked", 1)
 		for side, cc := range map[string]wl.Conn{"client": p.Cli, "server": p.Srv} {
 			sz := cc.VerifSizes()
+			// what outlives the exchange stays; what is merely in use this instant (a lock taken while a late datagram is
+			// being looked at) is gone a moment later: read again before calling it a leftover
+			for try := 0; try < 4 && sizesStr(sz) != "[]"; try++ {
+				p.Drain()
+				time.Sleep(5 * time.Millisecond)
+				sz = cc.VerifSizes()
+			}
 			for table, n := range sz {
 				if n != 0 {
 					rec.Violation("C13/"+c.Kind+"/"+side+"/leftover/"+table, fmt.Sprintf("after all %d exchanges returned and the housekeeping ran beyond every deadline (repeat %d): %s", len(c.Exchanges), rep, sizesStr(sz)), c)
